@@ -131,7 +131,8 @@ class Ctx(object):
 
 
 def short_fn(n):
-    return n.replace('github.com/junegunn/fzf/src/', '').replace('github.com/junegunn/fzf/', '').replace('(*', '').replace(')', '')
+    n = n.replace('github.com/junegunn/fzf/src/', '').replace('github.com/junegunn/fzf/', '').replace('(*', '').replace(')', '')
+    return n[1:] if n.startswith('(') else n
 
 
 # ---------------------------------------------------------------------------
